@@ -234,7 +234,7 @@ Definition liveMPDdrm (drmSet preEncrypted : bool) : res unit :=
 Definition encryptsTrack (drmSet hasEncData : bool) : bool := drmSet && hasEncData.
 
 (** [RepData.readInit]: the protection data of a representation ([addEncryption]) is prepared
-    whenever its codec can be encrypted ([prepareForEncryption]: avc*, mp4a.40*), on both load
+    whenever its codec can be encrypted ([prepareForEncryption]: codecs starting with avc or mp4a.40), on both load
     paths - scanned from the files (media timescale still unknown) and restored from the stored
     representation metadata (timescale already set, the function returns early after this step). *)
 Definition readInitPrepares (encryptableCodec timescaleKnown : bool) : bool := encryptableCodec.
